@@ -23,7 +23,43 @@ type Loaded struct {
 }
 
 // Load type-checks and builds SSA for the given package patterns (relative to dir) with the overlay applied.
+// Dropped records the harness files that did not type-check against the tree under test (file -> first error) and were
+// left out so that the remaining harnesses of the package can still run.
+var Dropped = map[string]string{}
+
+// Load loads the packages with the harness overlay. A harness file that does not compile against this tree (it refers to
+// an unexported function whose signature changed, say) is dropped and the load is repeated; the caller reports the
+// harnesses that lived in it as inconclusive.
 func Load(dir string, overlay map[string][]byte, patterns []string) (*Loaded, error) {
+	for attempt := 0; ; attempt++ {
+		ld, err := loadOnce(dir, overlay, patterns)
+		if err == nil || attempt >= 8 {
+			return ld, err
+		}
+		dropped := false
+		for _, line := range strings.Split(err.Error(), "\n") {
+			i := strings.Index(line, ".go:")
+			if i < 0 {
+				continue
+			}
+			file := line[:i+3]
+			base := filepath.Base(file)
+			if !strings.HasPrefix(base, "zz_verif_") || base == "zz_verif_api.go" {
+				continue
+			}
+			if _, ok := overlay[file]; ok {
+				delete(overlay, file)
+				Dropped[file] = strings.TrimSpace(line)
+				dropped = true
+			}
+		}
+		if !dropped {
+			return nil, err
+		}
+	}
+}
+
+func loadOnce(dir string, overlay map[string][]byte, patterns []string) (*Loaded, error) {
 	t0 := time.Now()
 	cfg := &packages.Config{Mode: packages.LoadAllSyntax, Dir: dir, Overlay: overlay,
 		Env: append(os.Environ(), "GOFLAGS=-mod=mod", "GOPROXY=off")}
